@@ -263,9 +263,15 @@ func c14StageStr(c *core.Case, o *core.Outcome) {
 		n := 1 + r.IntN(5)
 		parts := make([]string, n)
 		inDomain := true
+		negTargets := r.IntN(4) == 0
+		var totalDur time.Duration
 		for k := range parts {
 			d := genDuration(r, true)
 			t := genTarget(r)
+			if negTargets && r.IntN(2) == 0 {
+				t = -1 - r.IntN(200)
+			}
+			totalDur += d
 			parts[k] = fmt.Sprintf("%s:%d", d, t)
 			if r.IntN(3) == 0 {
 				parts[k] = " " + parts[k]
@@ -305,12 +311,35 @@ func c14StageStr(c *core.Case, o *core.Outcome) {
 			return
 		}
 		t0 := time.Now()
-		for q := 0; q < 5; q++ {
-			v := rates.Rate(t0.Add(time.Duration(q) * rates.IterationDuration))
+		// evaluate across the whole profile and across several distribution cycles
+		calls := 5
+		if freq > rates.IterationDuration {
+			calls = int(freq/rates.IterationDuration)*3 + 5
+		}
+		if calls > 400 {
+			calls = 400
+		}
+		step := rates.IterationDuration
+		if totalDur/time.Duration(calls) > step {
+			step = totalDur / time.Duration(calls)
+		}
+		for q := 0; q < calls && o.Verdict != core.Violated; q++ {
+			var v int
+			func() {
+				defer func() {
+					if pv := recover(); pv != nil {
+						o.Violate("stagestr-panic:"+s, "rate function of accepted stages %q (frequency %v, distribution %s) panicked at call %d: %v", s, freq, dist, q, pv)
+					}
+				}()
+				v = rates.Rate(t0.Add(time.Duration(q) * step))
+			}()
 			if v < 0 && inDomain {
 				o.Violate("stagestr-negative:"+s, "stages %q (non-negative targets) evaluate to %d", s, v)
 				return
 			}
+		}
+		if o.Verdict == core.Violated {
+			return
 		}
 		o.Sig("stagestr:accepted:n=%d:dist=%s:mut=%v", strings.Count(s, ",")+1, dist, mutated > 0)
 		if i == 0 {
@@ -456,7 +485,7 @@ func c14Flags(c *core.Case, o *core.Outcome) {
 			return
 		}
 		t0 := time.Now()
-		for q := 0; q < 5; q++ {
+		for q := 0; q < 80; q++ {
 			var v int
 			func() {
 				defer func() {
@@ -464,7 +493,7 @@ func c14Flags(c *core.Case, o *core.Outcome) {
 						o.Violate("flags-rate-panic:"+desc, "the rate function panicked: %v (%s)", pv, desc)
 					}
 				}()
-				v = trig.DryRun(t0.Add(time.Duration(q) * time.Second))
+				v = trig.DryRun(t0.Add(time.Duration(q) * 250 * time.Millisecond))
 			}()
 			if o.Verdict == core.Violated {
 				return
